@@ -35,7 +35,7 @@ def fix_guards(ctx, rule='A16'):
     for nopt in (1, 2, 5):
         env = {f'{dv}.n_opts': nopt}
         for v in interval.representatives([0, nopt - 1, nopt], integer=True):
-            it = interval.RegionInterp(var, env, on_store=is_store)
+            it = interval.RegionInterp(var, env, on_store=is_store, helpers=interval.unit_helpers(ctx, fn))
             out, _ = it.run(fn.node.body, v, flags={f'{dv}.is_discrete': True, f'{var} is None': False})
             inside = 0 <= v <= nopt - 1
             ok = (out.kind == 'store') == inside and out.kind in ('store', 'raise')
@@ -47,7 +47,7 @@ def fix_guards(ctx, rule='A16'):
     for lo, hi in ((0.0, 1.0), (-1.5, 4.0)):
         env = {f'{dv}.bounds[0]': lo, f'{dv}.bounds[1]': hi}
         for v in interval.representatives([lo, hi], integer=False):
-            it = interval.RegionInterp(var, env, on_store=is_store)
+            it = interval.RegionInterp(var, env, on_store=is_store, helpers=interval.unit_helpers(ctx, fn))
             out, _ = it.run(fn.node.body, v, flags={f'{dv}.is_discrete': False, f'{var} is None': False})
             inside = lo <= v <= hi
             ok = (out.kind == 'store') == inside and out.kind in ('store', 'raise')
@@ -74,21 +74,37 @@ def fix_structure(ctx, rule='A5'):
     ctx.ob(rule, fkey(fn, rule, 'index-among-all-des-vars'), ok, fn.where,
            'the fixed-value table is keyed by the position among all design variables (fixed ones included), '
            'the layout every consumer uses', short(idx_defs[0]) if idx_defs else 'missing')
-    # connection-choice variables are rejected before the store
-    loops = [n for n in cfg.nodes if n.kind == 'for' and '_conn_choice_data_map' in norm(n.ast.iter)]
-    ok = False
-    detail = 'no scan over the connection-choice variable ranges'
-    if loops:
-        lp = loops[0]
-        rng = [t for t in cfg.nodes if t.kind == 'test' and key_txt in norm(t.ast) and
-               isinstance(t.ast, ast.Compare) and len(t.ast.ops) == 2]
-        raising = [t for t in rng if any(m.kind == 'stmt' and isinstance(m.ast, ast.Raise)
-                                         for m, lab in t.succ if lab == 'T')]
-        half_open = [t for t in raising if isinstance(t.ast.ops[0], ast.LtE) and isinstance(t.ast.ops[1], ast.Lt)
-                     and norm(t.ast.comparators[0]) == key_txt]
-        ok = bool(half_open) and not cfg.can_reach(cfg.entry, st, blocked_nodes=[lp])
-        detail = f'range test {short(raising[0].ast) if raising else "?"}; the store is reachable only through ' \
-                 f'the scan: {not cfg.can_reach(cfg.entry, st, blocked_nodes=[lp])}'
+    # connection-choice variables are rejected before the store: a half-open range test over the connection-choice
+    # table (loop, any(...), flag variable or private helper), whose positive outcome raises
+    from ..rules.common import unit_functions
+    unit = unit_functions(ctx.prog, fn)
+
+    def range_tests(f):
+        out = []
+        for x in ast.walk(f.node):
+            if isinstance(x, ast.Compare) and len(x.ops) == 2 and isinstance(x.ops[0], ast.LtE) and \
+                    isinstance(x.ops[1], ast.Lt) and isinstance(x.comparators[0], ast.Name):
+                out.append(x)
+        return out
+    helper_names = {f.name for f in unit[1:] if range_tests(f) and '_conn_choice_data_map' in norm(f.node)}
+    own = [x for x in range_tests(fn) if norm(x.comparators[0]) == key_txt] \
+        if '_conn_choice_data_map' in norm(fn.node) else []
+
+    def scans(e):
+        return any(x in own or (isinstance(x, ast.Call) and call_name(x) in helper_names and
+                                any(norm(a) == key_txt for a in x.args))
+                   for x in ast.walk(e))
+    flag_names = {norm(a.targets[0]) for a in walk_fn(fn) if isinstance(a, ast.Assign) and
+                  isinstance(a.targets[0], ast.Name) and scans(a.value)}
+    blocked = [n for n in cfg.nodes if n.kind == 'for' and '_conn_choice_data_map' in norm(n.ast.iter)]
+    for t in cfg.nodes:
+        if t.kind == 'test' and (scans(t.ast) or any(isinstance(x, ast.Name) and x.id in flag_names
+                                                      for x in ast.walk(t.ast))):
+            if any(m.kind == 'stmt' and isinstance(m.ast, ast.Raise) for m, lab in t.succ):
+                blocked.append(t)
+    ok = bool(own or helper_names) and bool(blocked) and not cfg.can_reach(cfg.entry, st, blocked_nodes=blocked)
+    detail = f'half-open range test over the connection-choice table: {bool(own or helper_names)}; the store is ' \
+             f'reachable only through the rejecting scan: {ok}'
     ctx.ob(rule, fkey(fn, rule, 'connection-variables-rejected'), ok, fn.where,
            'a variable whose index lies in the half-open range [i_dv_start, i_dv_end) of a connection choice is '
            'rejected with an error before anything is stored', detail)
@@ -128,9 +144,12 @@ def fix_structure(ctx, rule='A5'):
     ctx.ob(rule, fkey(um, rule, 'mask-from-table'), ok, um.where,
            'the combination mask is recomputed from the fixed values of the selection-choice variables '
            '(design-variable index -> choice index through _sel_choice_idx_map)', '')
-    skip = [s for s in walk_fn(um) if isinstance(s, ast.If) and 'not in self._fixed_values' in norm(s.test)]
+    aliases = {'self._fixed_values'} | {norm(a.targets[0]) for a in walk_fn(um) if isinstance(a, ast.Assign) and
+                                        norm(a.value) == 'self._fixed_values'}
+    skip = [c for c in ast.walk(um.node) if isinstance(c, ast.Compare) and len(c.ops) == 1 and
+            isinstance(c.ops[0], (ast.In, ast.NotIn)) and norm(c.comparators[0]) in aliases]
     exists(ctx, rule, um, skip, 'only-fixed-choices', 'only variables present in the fixed-value table constrain '
-           'the mask')
+           'the mask (membership test on the table)')
 
 
 def consumers(ctx, rule='A5c'):
